@@ -185,6 +185,22 @@ class Runner:
             results.append(res)
         return results
 
+    def bind_model(self, only=None, dtypes=("float64", "float32")) -> None:
+        """Conformance replay of the interpreter against the generated code for the kernels this
+        check relies on (cached per kernel IR hash)."""
+        from harness import conform
+
+        s = conform.ensure(runner=self, only=only, dtypes=dtypes)
+        self.extra["model_binding"] = {
+            "kernels_bound": s["kernels"] - len(s["unbound"]) - len(s["skipped"]),
+            "conformance_replays": s["replays"],
+            "validated_in_this_run": s["validated_now"],
+            "unbound_kernels(no JIT in this image)": sorted(set(s["unbound"])),
+            "skipped": sorted(set(s["skipped"])),
+            "piecewise_kernels_with_both_branches_replayed": s["piecewise_both_branches"],
+        }
+        self.conformance_replays = s["replays"]
+
     def close(self) -> None:
         if self._pool is not None:
             self._pool.close()
